@@ -67,6 +67,14 @@ def run_case(prop, case):
                 seen.add(idx)
             if len(optimal) <= 4 and seen != optimal and not fails:
                 fail(f"{nm}.tied_optimum_unreachable", f"optima {sorted(optimal)}, reached {sorted(seen)} under {nseeds} seeds")
+            # axis=None spelled out is the same request as no axis at all
+            try:
+                r_none = fn(a, random_state=3, axis=None)
+                r_omit = fn(a, random_state=3)
+                if not np.array_equal(np.atleast_1d(r_none), np.atleast_1d(r_omit)):
+                    fail(f"{nm}.explicit_axis_None_differs", f"{np.atleast_1d(r_none).tolist()} with axis=None, {np.atleast_1d(r_omit).tolist()} without, shape {a.shape}")
+            except Exception as e:
+                fail(f"{nm}.explicit_axis_None_raised", f"{type(e).__name__}: {str(e)[:100]}")
             # along an axis
             if a.ndim == 2:
                 rows_ok = ~np.all(np.isnan(a), axis=1)
